@@ -27,6 +27,7 @@ import (
 	"encoding/json"
 	"fmt"
 	"math/rand/v2"
+	"os"
 	"reflect"
 	"regexp"
 	"strconv"
@@ -596,8 +597,29 @@ func scanZone(name string) []transition {
 var allTransitions []transition
 var transByZone = map[string][]transition{}
 
+// allSystemZones lists the canonical zones of the system's zone1970.tab (thorough tier).
+func allSystemZones() []string {
+	b, err := os.ReadFile("/usr/share/zoneinfo/zone1970.tab")
+	if err != nil {
+		return nil
+	}
+	var out []string
+	for _, l := range strings.Split(string(b), "\n") {
+		if l == "" || l[0] == '#' {
+			continue
+		}
+		if f := strings.Split(l, "\t"); len(f) >= 3 {
+			out = append(out, f[2])
+		}
+	}
+	return out
+}
+
 func initZones(t *testing.T) {
 	var have []string
+	if hx.Thorough() {
+		zoneNames = uniq(append(zoneNames, allSystemZones()...))
+	}
 	for _, z := range zoneNames {
 		if _, err := time.LoadLocation(z); err != nil {
 			t.Logf("zone %s unavailable: %v", z, err)
@@ -1311,6 +1333,7 @@ func TestEngine(t *testing.T) {
 		return
 	}
 	initZones(t)
+	tr.Linef("# zones=%d offset-changes=%d (1850-2100)", len(zoneNames), len(allTransitions))
 	g := &gen{r: hx.Rand(15)}
 	id := 0
 	// every transition of every zone; thorough: three independent draws of intervals per run of transitions
@@ -1318,8 +1341,11 @@ func TestEngine(t *testing.T) {
 	if hx.Thorough() {
 		rounds = 3
 	}
-	for range rounds {
-		for _, z := range zoneNames {
+	for round := range rounds {
+		for zi, z := range zoneNames {
+			if round > 0 && zi >= 22 {
+				break // the additional system zones (thorough) get one round
+			}
 			ts := transByZone[z]
 			for i := 0; i < len(ts); i += 4 {
 				g.edgeCase(tr, id, ts[i:min(i+4, len(ts))])
